@@ -221,6 +221,11 @@ def _check_early_returns(ctx, rep, RULE, f, tail):
     from sa.sym import Frame
     for st, r in early:
         probs = []
+        if _is_gate(ctx, f, st, r):
+            rep.ob(RULE, True, r, f, construct="early %s" % unparse(st)[:60].replace("\n", " "),
+                   how="`return False` for an atom without a chirality mark (inverting it is a no-op) or without a ring bond (S5: then no "
+                       "out-bond is a ring bond, the order is kept and the permutation is the identity)", nontrivial=True, key="early-return/gate")
+            continue
         if not (isinstance(st, ast.If) and len(st.body) == 1 and st.body[0] is r and not st.orelse and isinstance(r.value, ast.Constant)
                 and isinstance(r.value.value, bool)):
             probs.append("an early return of a shape the parity rule cannot evaluate")
@@ -246,6 +251,47 @@ def _check_early_returns(ctx, rep, RULE, f, tail):
         rep.ob(RULE, not probs, r, f, construct="early %s" % unparse(st)[:60].replace("\n", " "),
                how="taken only for fewer than two out-bonds, where every ordering is even", witness="; ".join(probs) or None,
                nontrivial=True, key="early-return/%s" % ("ok" if not probs else "bad"))
+
+
+def _is_gate(ctx, f, st, r):
+    """`if <gate> [or <gate>]: return False` at the top of the decider, where each gate is one of the two conditions under which the
+    caller need not ask at all:  <atom>.chirality is None  (Atom.invert_chirality changes '@' / '@@' only -- checked here on the
+    method's code) and  not <graph>.has_out_ring_bond(<atom>.index)  (meaning of the flag: S5)."""
+    if not (isinstance(st, ast.If) and len(st.body) == 1 and st.body[0] is r and not st.orelse and isinstance(r.value, ast.Constant)
+            and r.value.value is False):
+        return False
+    disj = st.test.values if isinstance(st.test, ast.BoolOp) and isinstance(st.test.op, ast.Or) else [st.test]
+    params = set(f.params)
+
+    def chirality_none(e):
+        return isinstance(e, ast.Compare) and len(e.ops) == 1 and isinstance(e.ops[0], ast.Is) and isinstance(e.left, ast.Attribute) \
+            and e.left.attr == "chirality" and isinstance(e.left.value, ast.Name) and e.left.value.id in params \
+            and isinstance(e.comparators[0], ast.Constant) and e.comparators[0].value is None
+
+    def no_ring_bond(e):
+        if not (isinstance(e, ast.UnaryOp) and isinstance(e.op, ast.Not) and isinstance(e.operand, ast.Call)):
+            return False
+        c = e.operand
+        site = {id(s_.node): s_ for s_ in ctx.cg.sites(f)}.get(id(c))
+        if site is None or len(site.callees) != 1 or site.callees[0].name != "has_out_ring_bond" or len(c.args) != 1:
+            return False
+        a = c.args[0]
+        return isinstance(a, ast.Attribute) and a.attr == "index" and isinstance(a.value, ast.Name) and a.value.id in params
+    if not all(chirality_none(e) or no_ring_bond(e) for e in disj):
+        return False
+    if any(chirality_none(e) for e in disj):
+        # inverting an unmarked atom is a no-op: every store to .chirality in invert_chirality sits under a test of it against a str
+        inv = [m for c_ in ctx.db.classes.values() for m in c_.methods.values() if m.name == "invert_chirality"]
+        if len(inv) != 1:
+            return False
+        for n in own_nodes(inv[0].node):
+            if isinstance(n, ast.Attribute) and n.attr == "chirality" and isinstance(n.ctx, ast.Store):
+                par = [x for x in ast.walk(inv[0].node) if isinstance(x, ast.If) and any(y is n for b in x.body + x.orelse for y in ast.walk(b))]
+                if not any(isinstance(x.test, ast.Compare) and isinstance(x.test.ops[0], ast.Eq) and isinstance(x.test.comparators[0], ast.Constant)
+                           and isinstance(x.test.comparators[0].value, str) and unparse(x.test.left).endswith(".chirality")
+                           and any(y is n for b in x.body for y in ast.walk(b)) for x in par):
+                    return False
+    return True
 
 
 def _check_parity_decider(ctx, rep, RULE, f, ret, g):
